@@ -99,15 +99,24 @@ static void put_run(long a, long b, const struct attr *at, int *first)
 	if (a == b) printf("%ld", a); else printf("%ld-%ld", a, b);
 	printf("=%zu%s%s", at->size, at->init ? "i" : "", at->fini ? "f" : "");
 }
+/* description objects by id as first seen (see drv_types.c) */
+static const void *seen_obj[SWEEP_MAX + 2], *seen_named[SWEEP_MAX + 2];
+static int note_obj(const void **tab, long id, const void *t)
+{
+	if (id < 0 || id > SWEEP_MAX || !t) return 0;
+	if (!tab[id]) { tab[id] = t; return 0; }
+	return tab[id] != t;
+}
 static void op_sweep(void)
 {
 	struct attr run = { 0, 0, 0, 0 }, cur;
-	long start = 0;
-	int first = 1;
+	long start = 0, moved[8];
+	int first = 1, nmoved = 0;
 	printf("R traits=");
 	for (long id = 0; id <= SWEEP_MAX + 1; id++) {
 		const struct type_traits *t = id <= SWEEP_MAX ? type_traits::get((int) id) : 0;
 		cur.have = t != 0; cur.size = t ? t->size : 0; cur.init = t && t->init; cur.fini = t && t->fini;
+		if (note_obj(seen_obj, id, t) && nmoved < 8) moved[nmoved++] = id;
 		if (id == 0 || !attr_eq(&cur, &run)) {
 			if (id) put_run(start, id - 1, &run, &first);
 			run = cur; start = id;
@@ -126,8 +135,12 @@ static void op_sweep(void)
 		printf("%ld:", id);
 		put_name(nt->name);
 		if ((long) nt->type != id) printf("!type=%ld", (long) nt->type);
+		if (note_obj(seen_named, id, nt) && nmoved < 8) moved[nmoved++] = id;
 	}
 	if (first) fputc('-', stdout);
+	printf(" moved=");
+	if (!nmoved) fputc('-', stdout);
+	for (int i = 0; i < nmoved; i++) printf("%s%ld", i ? "," : "", moved[i]);
 	printf(" | C - | I -\n");
 }
 
